@@ -40,7 +40,9 @@
 ; container comparison (lexicographic, then length) in the heap of the call: characterised by compareSlices/compareObjects
 (declare-fun cmpC (Val Val) Int)
 ; the specification order of C10 / C01 / C08
-(define-fun cmpS ((a Val) (b Val)) Int
+; cmpS is opaque to clients (so that it can serve as a pattern); reveal (cmpS a b) gives the definition
+(declare-fun cmpS (Val Val) Int)
+(define-fun cmpS!def ((a Val) (b Val)) Int
   (ite (not (= (rankOf a) (rankOf b))) (ite (< (rankOf a) (rankOf b)) (- 1) 1)
   (ite (= (rankOf a) 1) (numCmp a b)
   (ite (= (rankOf a) 2) (strCmp (sval a) (sval b))
